@@ -1,8 +1,45 @@
 package main
 
-import sdk "github.com/cosmos/cosmos-sdk/types"
+import (
+	"fmt"
 
-func extraAgents(s *Sim) []Agent     { return nil }
-func extraMonitors(s *Sim) []Monitor { return nil }
-func extraSignature(s *Sim) string   { return "" }
-func msgURL(m sdk.Msg) string        { return sdk.MsgTypeURL(m) }
+	sdk "github.com/cosmos/cosmos-sdk/types"
+	leveragelptypes "github.com/elys-network/elys/x/leveragelp/types"
+)
+
+func extraAgents(s *Sim) []Agent {
+	var out []Agent
+	add := func(name string, a Agent) {
+		if s.Cfg.rate(name) > 0 {
+			out = append(out, a)
+		}
+	}
+	add("lender", &LenderAgent{newBase(s, "lender")})
+	add("levlp", &LevLPAgent{newBase(s, "levlp")})
+	add("perp", &PerpAgent{newBase(s, "perp")})
+	add("liquidator", &LiquidatorAgent{baseAgent: newBase(s, "liquidator")})
+	return out
+}
+
+func extraMonitors(s *Sim) []Monitor {
+	return []Monitor{
+		newMonC06(s),
+		newMonC08(s),
+		newMonC09(s),
+		newMonC11(s),
+		newMonC12(s),
+	}
+}
+
+func extraSignature(s *Sim) string {
+	ctx := s.Ctx()
+	app := s.N0.App
+	np := len(app.LeveragelpKeeper.GetAllPositions(ctx))
+	nm := len(app.PerpetualKeeper.GetAllMTPs(ctx))
+	nd := len(app.StablestakeKeeper.GetAllDebts(ctx))
+	return fmt.Sprintf("|levpos:%s|mtps:%s|debts:%s", bucket(np), bucket(nm), bucket(nd))
+}
+
+func msgURL(m sdk.Msg) string { return sdk.MsgTypeURL(m) }
+
+func leveragelpPositionAddress(id uint64) sdk.AccAddress { return leveragelptypes.GetPositionAddress(id) }
